@@ -575,6 +575,7 @@ pub struct W2Scenario {
 fn allowed_features() -> gen::problem::Features {
     let mut allowed = gen::problem::Features::all();
     allowed.req_breaks = false;
+    allowed.recharges = true;
     allowed
 }
 
@@ -714,9 +715,13 @@ impl W2Scenario {
                         rec.issues.push(IssueRec { prop: prop.clone(), rule: rule.clone(), sig: sig_base.join("|"), msg: msg.clone() });
                     }
                 }
+                let init_flagged = o.init_issues.iter().any(|(_, r, _)| r == "unreachable-leg");
                 for (prop, rule, msg) in &o.init_issues {
                     let mut sig = sig_base.clone();
                     sig.push(format!("init:{}", case.init));
+                    if init_flagged {
+                        sig.push("flagged-leg-in-solution".to_string());
+                    }
                     let prop = if prop == "C02" && C02_RULES_IN_C04.contains(&rule.as_str()) { "C04".to_string() } else { map_prop(prop, self.prop) };
                     rec.issues.push(IssueRec { prop, rule: rule.clone(), sig: sig.join("|"), msg: format!("after initial {}: {msg}", case.init) });
                 }
